@@ -262,7 +262,11 @@ impl Matrix {
                 _ => unreachable!(),
             },
             Constructor::Variant((enum_def, idx)) => {
-                let data_ty = data_ty_of_variant(statics, enum_def, *idx);
+                let args: &[Type] = match &expanded.types[0] {
+                    Type::Nominal(_, args) => args,
+                    _ => &[],
+                };
+                let data_ty = data_ty_of_variant(statics, enum_def, args, *idx);
                 match data_ty {
                     Type::Never => unreachable!(),
                     Type::InterfaceOutput(..) => unreachable!(),
@@ -542,9 +546,9 @@ impl DeconstructedPat {
             {
                 struct_field_tys(statics, struct_def, args)
             }
-            Type::Nominal(_, _) => match ctor {
+            Type::Nominal(_, args) => match ctor {
                 Constructor::Variant((enum_def, idx)) => {
-                    let data_ty = data_ty_of_variant(statics, enum_def, *idx);
+                    let data_ty = data_ty_of_variant(statics, enum_def, args, *idx);
 
                     if !matches!(data_ty, Type::Void) {
                         vec![data_ty.clone()]
@@ -624,18 +628,30 @@ fn subst_solved_ty(ty: &Type, subst: &HashMap<PolytypeDeclaration, Type>) -> Typ
     }
 }
 
-fn data_ty_of_variant(statics: &StaticsContext, enum_def: &Rc<EnumDef>, idx: usize) -> Type {
+// `args` are the type arguments the enum is instantiated with (`option<bool>` -> `[bool]`)
+fn data_ty_of_variant(
+    statics: &StaticsContext,
+    enum_def: &Rc<EnumDef>,
+    args: &[Type],
+    idx: usize,
+) -> Type {
+    let mut subst: HashMap<PolytypeDeclaration, Type> = HashMap::default();
+    for (i, ty_arg) in enum_def.ty_args.iter().enumerate() {
+        if let Some(Declaration::Polytype(decl)) = statics.resolution_map.get(&ty_arg.name.id)
+            && let Some(arg) = args.get(i)
+        {
+            subst.insert(decl.clone(), arg.clone());
+        }
+    }
     let variant = &enum_def.variants[idx];
     let variant_data = &variant.fields;
+    let mut field_tys = variant_data
+        .iter()
+        .map(|field| subst_solved_ty(&field.ty.to_solved_type(statics).unwrap(), &subst));
     match variant_data.len() {
         0 => Type::Void,
-        1 => variant_data[0].ty.to_solved_type(statics).unwrap(),
-        _ => Type::Tuple(
-            variant_data
-                .iter()
-                .map(|field| field.ty.to_solved_type(statics).unwrap())
-                .collect(),
-        ),
+        1 => field_tys.next().unwrap(),
+        _ => Type::Tuple(field_tys.collect()),
     }
 }
 
